@@ -35,6 +35,8 @@ import CoreDhcp.Props.GenRange4
 import CoreDhcp.Props.GenFilePlugin
 import CoreDhcp.Props.GenConfig
 import CoreDhcp.Props.GenPrefix6
+import CoreDhcp.Props.GenHandlers6
+import CoreDhcp.Props.GenSetups
 open CoreDhcp
 #print axioms C20_offset_exact
 #print axioms C20_offset_symm
@@ -294,3 +296,41 @@ open CoreDhcp
 #print axioms GEN_pd_handle_total
 #print axioms GEN_pd_setup_eq
 #print axioms GEN_pd_setup_arity
+#print axioms GEN_h6_dns_eq
+#print axioms GEN_h6_dns_undecap
+#print axioms GEN_h6_searchdomains_eq
+#print axioms GEN_h6_searchdomains_blind
+#print axioms GEN_h6_sleep_eq
+#print axioms GEN_h6_sleep_blind
+#print axioms GEN_h6_nbp_loop
+#print axioms GEN_h6_nbp_eq
+#print axioms GEN_h6_nbp_unset
+#print axioms GEN_h6_nbp_unset_differs
+#print axioms GEN_h6_nbp_undecap
+#print axioms GEN_h6_serverid_eq
+#print axioms GEN_h6_serverid_undecap
+#print axioms GEN_h6_serverid_decision
+#print axioms GEN_setup_mtu4_eq
+#print axioms GEN_setup_sleep4_eq
+#print axioms GEN_setup_sleep6_eq
+#print axioms GEN_setup_leasetime4_eq
+#print axioms GEN_setup_ipv6only4_eq
+#print axioms GEN_setup_autoconfigure4_eq
+#print axioms GEN_setup_serverid4_eq
+#print axioms GEN_setup_serverid6_eq
+#print axioms GEN_setup_nbp4_eq
+#print axioms GEN_setup_nbp6_eq
+#print axioms GEN_setup_netmask4_eq
+#print axioms GEN_setup_netmask4_eq_wf
+#print axioms GEN_setup_netmask4_needs_len
+#print axioms GEN_setup_router4_eq
+#print axioms GEN_setup_dns4_eq
+#print axioms GEN_setup_dns6_eq
+#print axioms GEN_setup_staticroute4_eq
+#print axioms GEN_setup_searchdomains4_eq
+#print axioms GEN_setup_searchdomains6_eq
+#print axioms GEN_setup_router4_accumulates
+#print axioms GEN_setup_ipv6only4_keeps
+#print axioms GEN_setup_autoconfigure4_keeps
+#print axioms GEN_setup_nbp4_keeps66
+#print axioms GEN_setup_nbp6_keeps60
